@@ -167,35 +167,29 @@ Proof.
   - rewrite Hx. cbn [nonempty]. exact IH.
 Qed.
 
-(* and / or: the code tests emptiness; documented as truthy logic *)
-Theorem and_emptiness_proof : forall args,
-  f_and args = Ok (tstr (forallb (fun a => nonempty (a_val a)) args)) /\
-  f_or args = Ok (tstr (existsb (fun a => nonempty (a_val a)) args)).
-Proof. intros; split; reflexivity. Qed.
-
-Theorem andor_refuted_proof :
-  (exists args, f_and args <> Ok (spec_and args)) /\ (exists args, f_or args <> Ok (spec_or args)).
+(* and / or (after repair C11-andor-emptiness): truthy logic as documented *)
+Theorem andor_law_proof : forall args,
+  f_and args = Ok (spec_and args) /\ f_or args = Ok (spec_or args) /\
+  (f_and args = Ok TruthyVal <-> Forall (fun a => truthy (a_val a) = true) args) /\
+  (f_or args = Ok TruthyVal <-> Exists (fun a => truthy (a_val a) = true) args).
 Proof.
-  split; exists [A true [32] None]; vm_compute; discriminate.
+  intros args. split; [reflexivity|]. split; [reflexivity|].
+  unfold f_and, f_or, ok, tstr. split.
+  - rewrite Forall_forall. split.
+    + intros H. destruct (forallb _ args) eqn:E; [|inversion H].
+      rewrite forallb_forall in E. exact E.
+    + intros H. rewrite <- forallb_forall in H. rewrite H. reflexivity.
+  - rewrite Exists_exists. split.
+    + intros H. destruct (existsb _ args) eqn:E; [|inversion H].
+      apply existsb_exists in E. exact E.
+    + intros H. apply existsb_exists in H. rewrite H. reflexivity.
 Qed.
 
-Definition no_blank_only (args : list arg) : Prop :=
-  Forall (fun a => a_val a = [] \/ truthy (a_val a) = true) args.
-
-Theorem andor_partial_proof : forall args, no_blank_only args ->
-  f_and args = Ok (spec_and args) /\ f_or args = Ok (spec_or args).
-Proof.
-  intros args H. unfold f_and, f_or, spec_and, spec_or.
-  assert (E : forall a, In a args -> nonempty (a_val a) = truthy (a_val a)).
-  { intros a Ha. unfold no_blank_only in H. rewrite Forall_forall in H. destruct (H a Ha) as [E|E].
-    - rewrite E. reflexivity.
-    - rewrite E. apply truthy_nonempty. exact E. }
-  unfold ok. split; do 2 f_equal.
-  - clear H. induction args as [|a r IH]; [reflexivity|]. cbn [forallb].
-    rewrite E by (left; reflexivity). rewrite IH; [reflexivity|]. intros x Hx. apply E. right. exact Hx.
-  - clear H. induction args as [|a r IH]; [reflexivity|]. cbn [existsb].
-    rewrite E by (left; reflexivity). rewrite IH; [reflexivity|]. intros x Hx. apply E. right. exact Hx.
-Qed.
+(* the behaviour as found (emptiness test) was not the documented one *)
+Theorem andor_asfound_refuted_proof :
+  (exists args, tstr (forallb (fun a => nonempty (a_val a)) args) <> spec_and args) /\
+  (exists args, tstr (existsb (fun a => nonempty (a_val a)) args) <> spec_or args).
+Proof. split; exists [A true [32] None]; vm_compute; discriminate. Qed.
 
 (* ---- numeric comparison on pre-parsed values ---- *)
 Lemma fcompare_antisym a b : fcompare b a = option_map CompOpp (fcompare a b).
